@@ -257,6 +257,8 @@ pub(crate) enum ExprErrorKind {
     EmptyRandomRange(i64),
     #[error("The function {0} is not implemented")]
     FunctionNotImplemented(&'static str),
+    #[error("The variable {0} has not been assigned a value")]
+    UnknownVariable(String),
 }
 
 /// Could not construct static iterator
